@@ -43,6 +43,21 @@ inductive KeyErr | bad | unsupported
 
 /-- `[q]<descriptor>[=v{,v}]` -/
 def parseKey (tok : String) : Except KeyErr Key :=
+  -- `c<descriptor>=i<kind>,i<argument>`: a callback key (bufr_set_key_callback) with one of the harness's callbacks
+  if tok.startsWith "c" then
+    match ((tok.drop 1).toString).splitOn "=" with
+    | [d, v] =>
+      if !findIsNum d || d.startsWith "-" || d.length > 6 then .error .bad else
+      let num (t : String) : Option Int :=
+        if t.startsWith "i" && findIsNum ((t.drop 1).toString) && t.length ≤ 12 then ((t.drop 1).toString).toInt? else none
+      match (v.splitOn ",").mapM num with
+      | some [k, a] =>
+        let desc := d.toNat?.getD 0
+        if desc ≥ 0x20000 || k < 0 || k > 2 then .error .unsupported
+        else .ok { desc := setBit desc CB_FLAG_BIT, vals := [Val.i32 k, Val.i32 (Bufr.SF.wrapI32 a)] }
+      | _ => .error .bad
+    | _ => .error .bad
+  else
   let (isq, t) := if tok.startsWith "q" then (true, (tok.drop 1).toString) else (false, tok)
   let (ds, vs?) := match t.splitOn "=" with
     | [d] => (d, none)
